@@ -56,6 +56,54 @@ def gen_bool_mix(types):
     return out
 
 
+BOOL_EXPRS = ["(a < b)", "(a == 1)", "!a", "(a && b)", "(a || b)", "((a < b) ? (a == b) : !a)", "((a < b) == (b < a))", "(!a != !b)"]
+BIN_OPS = ["+", "-", "*", "/", "%", "&", "|", "^", "<<", ">>", "<", "<=", "==", "!=", "&&", "||"]
+
+
+def gen_bool_positions(bools=BOOL_EXPRS):
+    """A boolean-sorted expression in every operand position the language has."""
+    out = []
+    d = [("int32_t", "a", "input"), ("uint8_t", "b", "input"), ("int64_t", "r", "local"), ("int16_t", "h", "local"), ("uint64_t", "w", "local")]
+    for B in bools:
+        pos = []
+        for op in ASSIGN_OPS:
+            for tgt in ("r", "h", "w", "RdV", "RxxV", "PdV"):
+                pre = "" if op == "=" else ("%s = a; " % tgt)
+                pos.append(("assign", op, tgt, "%s%s %s %s;" % (pre, tgt, op, B)))
+        for op in BIN_OPS:
+            pos.append(("bin-l", op, "", "r = %s %s a;" % (B, op)))
+            pos.append(("bin-r", op, "", "r = a %s %s;" % (op, B)))
+            pos.append(("bin-lr", op, "", "r = %s %s %s;" % (B, op, B)))
+            pos.append(("bin-r8", op, "", "r = b %s %s;" % (op, B)))
+        for u in ("-", "~", "!", "+"):
+            pos.append(("un", u, "", "r = %s%s;" % (u, B)))
+        for t in ("int8_t", "uint8_t", "int32_t", "uint32_t", "int64_t", "uint64_t"):
+            pos.append(("cast", t, "", "r = (%s)%s;" % (t, B)))
+            pos.append(("init", t, "", "%s q = %s; r = q;" % (t, B)))
+        pos += [
+            ("cond", "", "", "r = %s ? a : b;" % B),
+            ("arm1", "", "", "r = a ? %s : b;" % B),
+            ("arm2", "", "", "r = a ? b : %s;" % B),
+            ("arms", "", "", "r = a ? %s : %s;" % (B, B)),
+            ("if", "", "", "if (%s) { r = a; }" % B),
+            ("for-cond", "", "", "for (i = 0; %s; i++) { r = a; }" % B),
+            ("for-init", "", "", "for (i = %s; i < 2; i++) { r = a; }" % B),
+            ("for-step", "", "", "for (i = 0; i < 2; i += %s) { r = a; }" % B),
+            ("call-arg", "", "", "r = clz32(%s);" % B),
+            ("call-arg64", "", "", "r = clo64(%s);" % B),
+            ("store-addr", "", "", "mem_store_u8(%s, a);" % B),
+            ("store-val", "", "", "mem_store_u32(a, %s);" % B),
+            ("load-addr", "", "", "r = mem_load_u8(%s);" % B),
+            ("jump", "", "", "JUMP(%s);" % B),
+            ("stmt-expr", "", "", "r = ({ h = a; %s; });" % B),
+            ("extract", "", "", "r = extract64(a, %s, 3);" % B),
+            ("incdec", "", "", "h = %s; h++; r = h;" % B),
+        ]
+        for kind, x, y, st in pos:
+            out.append(P(d, st, ("boolpos", kind, x, y, B)))
+    return out
+
+
 OPERANDS = [("a", [("int32_t", "a", "input")]), ("c", [("uint8_t", "c", "input")]), ("RsV", []), ("RssV", []), ("PuV", []), ("siV", []), ("5", []), ("0x1234LL", []), ("HEX_REG_ALIAS_LR", []), ("PuN", []), ("RxV", []), ("MuV", [])]
 
 
@@ -139,6 +187,7 @@ def static_space(tier):
         specs += gen_assignments(T8, T8)
         specs += gen_bool_mix(["int8_t", "uint8_t", "uint16_t", "int32_t", "uint32_t", "int64_t", "uint64_t"])
     specs += gen_reuse() + gen_folding() + gen_control() + gen_rw_operands()
+    specs += gen_bool_positions(BOOL_EXPRS[:4] if tier == "quick" else BOOL_EXPRS)
     specs += c06.space("quick")
     if tier == "thorough":
         specs += c03.space("quick") + c05.space("quick") + c06.space("thorough")
